@@ -87,6 +87,9 @@ func runObligations(results []*FuncResult, dir string, timeoutS, seed int, all b
 		go func() {
 			defer wg.Done()
 			defer func() { <-sem }()
+			if j.o.Result != nil {
+				return // decided without a solver (syntactic scan)
+			}
 			q := j.vc.query(j.o)
 			if j.o.Cover {
 				t0 := time.Now()
